@@ -126,6 +126,7 @@ inductive Waiter where
   | none                                  -- detached (called without yield) / nobody listens
   | frame (fid : Nat) (slot : Nat)        -- a suspended parent coroutine (slot: index inside a gen.multi)
   | top (tid : Nat)                       -- a top-level future with done-callbacks, see `TopFut`
+  | callback (name : String)              -- a plain loop.call_later callback (SysHandler._quit)
   deriving Repr, Inhabited
 
 /-- results of coroutines -/
@@ -208,13 +209,15 @@ structure Arbiter where
   warmup : Nat := 0
   pubClosed : Bool := false
   ctlClosed : Bool := false
+  loopStop : Bool := false                   -- loop.add_callback(self.loop.stop) was issued
   deriving Repr, Inhabited
 
 /-- entries of the event loop's ready queue (`call_soon`) -/
 inductive Ready where
   | resume (k : Kont) (v : Val) (w : Waiter)   -- a future's done-callback resuming a coroutine
   | topCb (cb : TopCb) (v : Val)               -- done-callback of a top-level future
-  | closeCtl                                   -- loop.add_callback(stop_controller_and_close_sockets)
+  | closeCtl                                   -- stop_controller_and_close_sockets once the loop has been stopped
+  | callback (name : String)                   -- a timer callback
   deriving Repr, Inhabited
 
 structure State where
